@@ -41,7 +41,7 @@ GLOBAL_REWRITES = [
      "std integer to_be_bytes has an unnameable return type in Verus; shim spec = big-endian digits"),
     ("to_le_bytes", r"(\b[A-Za-z_][A-Za-z0-9_\.]*)\.to_le_bytes\(\)", r"to_le_bytes_shim(\1)",
      "as above, little-endian"),
-    ("snafu_context_struct", r"\.context\(\s*[A-Za-z_][A-Za-z0-9_:]*Snafu\s*\{[^{}]*\}\s*\)", r".context_()",
+    ("snafu_context_struct", r"\.context\(\s*[A-Za-z_][A-Za-z0-9_:]*Snafu\s*\{[^{}]*\}\s*,?\s*\)", r".context_()",
      "snafu context: identity on Ok, opaque error on Err; error content dropped"),
     ("snafu_context", r"\.context\(\s*[A-Za-z_][A-Za-z0-9_:]*Snafu\s*\)", r".context_()",
      "snafu context: identity on Ok, opaque error on Err; error content dropped"),
@@ -57,6 +57,11 @@ DROP_STMT = [
     ("attr", r"^[ \t]*#\[(inline|must_use|allow|deprecated|doc)[^\]]*\][ \t]*\n", "attributes dropped"),
     ("doc", r"^[ \t]*///[^\n]*\n", "doc comments dropped"),
 ]
+
+
+class BodyAnchorLost(rsx.LostAnchor):
+    """The function was found but a rewrite / loop / proof anchor inside it was not: the function can
+    still be represented by its contract (stub) so that the rest of the unit is verified."""
 
 
 class Directive:
@@ -106,9 +111,9 @@ def parse_directive(text):
             if re.match(r"^@header\s*$", ln):
                 d.header = ""
                 continue
-            m = re.match(r"^@rewrite /(.*)/ => (.*)$", ln)
+            m = re.match(r"^@rewrite(\??) /(.*)/ => (.*)$", ln)
             if m:
-                d.rewrites.append((m.group(1), m.group(2)))
+                d.rewrites.append((m.group(2), m.group(3), m.group(1) == "?"))
                 continue
             m = re.match(r"^@(spec|loop \d+|proof after (?:#\d+ )?/.*/)\s*$", ln)
             if m:
@@ -136,7 +141,7 @@ def insert_loops(text, loops):
     out, last = [], 0
     for n in sorted(loops):
         if n >= len(heads):
-            raise rsx.LostAnchor(f"loop {n} not found (function has {len(heads)} loops)")
+            raise BodyAnchorLost(f"loop {n} not found (function has {len(heads)} loops)")
     for n, m in enumerate(heads):
         if n in loops:
             brace = m.end() - 1
@@ -148,6 +153,21 @@ def insert_loops(text, loops):
 
 
 def expand_fn(d: Directive, stats):
+    """Expand one directive; if only anchors *inside* the body are lost, fall back to a stub
+    (signature + contract, `external_body`) and record the function as not verified."""
+    try:
+        return expand_fn_real(d, stats, stub=False)
+    except BodyAnchorLost as e:
+        relaxed = Directive()
+        relaxed.__dict__.update(d.__dict__)
+        relaxed.loops, relaxed.proofs = {}, []
+        relaxed.rewrites = [(rx, repl, True) for rx, repl, _ in d.rewrites]
+        out = expand_fn_real(relaxed, stats, stub=True)
+        stats[-1]["stubbed"] = str(e)
+        return out
+
+
+def expand_fn_real(d: Directive, stats, stub):
     path = os.path.join(REPO, d.file)
     if not os.path.exists(path):
         raise rsx.LostAnchor(f"{d.file} does not exist")
@@ -177,11 +197,12 @@ def expand_fn(d: Directive, stats):
         text, n = re.subn(rx, repl, text)
         if n:
             info["rewrites"][name] = n
-    for rx, repl in d.rewrites:
+    for rx, repl, optional in d.rewrites:
         text, n = re.subn(rx, repl, text)
-        if n == 0:
-            raise rsx.LostAnchor(f"{d.fn}: declared rewrite /{rx}/ matched nothing")
-        info["rewrites"]["unit:" + rx] = n
+        if n == 0 and not optional:
+            raise BodyAnchorLost(f"{d.fn}: declared rewrite /{rx}/ matched nothing")
+        if n:
+            info["rewrites"]["unit:" + rx] = n
     # split signature / body
     masked = rsx.mask(text)
     kw = re.search(r"\bfn\s+" + re.escape(d.fn) + r"\b", masked)
@@ -209,7 +230,7 @@ def expand_fn(d: Directive, stats):
     for rx, ptxt, occ in d.proofs:
         ms = list(re.finditer(rx, body, re.M))
         if len(ms) <= occ:
-            raise rsx.LostAnchor(f"{d.fn}: proof anchor /{rx}/ #{occ} not found")
+            raise BodyAnchorLost(f"{d.fn}: proof anchor /{rx}/ #{occ} not found")
         m = ms[occ]
         eol = body.find("\n", m.end() - 1 if m.group(0).endswith("\n") else m.end())
         eol = len(body) if eol < 0 else eol
@@ -218,7 +239,10 @@ def expand_fn(d: Directive, stats):
         ins.append((eol + 1, ptxt))
     for pos, ptxt in sorted(ins, key=lambda x: -x[0]):
         body = body[:pos] + ptxt + "\n" + body[pos:]
-    out = sig.rstrip() + "\n" + (d.spec.rstrip() + "\n" if d.spec.strip() else "") + body
+    if stub:
+        out = "#[verifier::external_body]\n" + sig.rstrip() + "\n" + (d.spec.rstrip() + "\n" if d.spec.strip() else "") + "{ unimplemented!() }\n"
+    else:
+        out = sig.rstrip() + "\n" + (d.spec.rstrip() + "\n" if d.spec.strip() else "") + body
     stats.append(info)
     return out
 
